@@ -77,6 +77,16 @@ def gen_cases(rng, tier):
             outer.append(o)
             inner.append(i)
         cases.append({'outer': outer, 'inner': inner, 'kind': 'random'})
+    # large site indices (a site set of a few thousand sites): neighbours of 1000, 2000 (decimal packings), 256, 32768 (binary ones)
+    for _ in range({'quick': 30, 'thorough': 300, 'search': 20}[tier]):
+        pool = rng.choice([[998, 999, 1000, 1001], [1999, 2000, 2001], [255, 256, 257], [32767, 32768], [999, 1000, 65535, 65536]])
+        T = rng.choice([3, 5, 9])
+        outer, inner = [], []
+        for _a in range(rng.randint(1, 3)):
+            o = [rng.choice(pool + [-1]) for _t in range(T)]
+            outer.append(o)
+            inner.append([v if (v != -1 and rng.random() < 0.5) else -1 for v in o])
+        cases.append({'outer': outer, 'inner': inner, 'kind': 'large-index'})
     # a long run: frame numbers beyond what 16-bit (65535) time indices can hold; few changes, some of them late (oracle only)
     for _ in range({'quick': 1, 'thorough': 3, 'search': 1}[tier]):
         T = rng.choice([70000, 66000, 131100])
